@@ -55,7 +55,7 @@ def rule_1(ctx):
 SWALLOW_TRIAGE = {
     ('xlfunctions.xl', '_safe_validate', 0): ('reachable', 'items of var-positional / Tuple[...] parameters and range cells that are error values are dropped: SUM(1,#N/A) gives 1, 10/0&"x" gives "x"'),
     ('xlfunctions.xl', '_validate', 0): ('conversion', 'Union member attempt; an error argument is returned by validate_args before'),
-    ('xlfunctions.func_xltypes', '_safe_cast.safe_cast', 0): ('reachable', 'cells of ranges that are error values are replaced by the empty value in Array.flatten/cast_to_*: XNPV/XIRR/SUMIF ignore errors in ranges'),
+    ('xlfunctions.func_xltypes', '_safe_cast', 0): ('reachable', 'cells of ranges that are error values are replaced by the empty value in Array.flatten/cast_to_*: XNPV/XIRR/SUMIF ignore errors in ranges'),
     ('xlfunctions.func_xltypes', '_convert_nested_list', 0): ('conversion', 'cast_from_native returns error values unchanged; the handler only covers unknown native types'),
     ('xlfunctions.func_xltypes', 'Text.__number__', 0): ('conversion', 'attempts on the text of a Text value'),
     ('xlfunctions.func_xltypes', 'Text.__number__', 1): ('conversion', 'attempts on the text of a Text value'),
@@ -64,11 +64,14 @@ SWALLOW_TRIAGE = {
 
 
 def _swallowing_handlers(ctx):
+    """Handlers that catch an ExcelError (or broader) and drop it; keyed by the OUTERMOST enclosing function (class-qualified)
+    and their ordinal inside it, so that renaming a nested helper does not change the key."""
     out = []
     for m in ctx.repo.modules.values():
-        for qual, fn in m.funcs.items():
+        tops = [(q, f) for q, f in m.funcs.items() if isinstance(f._parent, (ast.Module, ast.ClassDef))]
+        for qual, fn in tops:
             k = 0
-            for t in walk_local(fn):
+            for t in ast.walk(fn):
                 if not isinstance(t, ast.Try):
                     continue
                 for h in t.handlers:
@@ -99,14 +102,15 @@ def rule_2(ctx):
         key = (m.name, qual, k)
         tri = SWALLOW_TRIAGE.get(key)
         construct = f'swallowing handler #{k} in {qual} (catches {",".join(str(t).split(":")[-1] for t in types)})'
+        where = (m, qual, h.lineno)
         if tri is None:
-            ctx.bad(h, construct, 'a handler catches an ExcelError (or broader) and drops it; it is not in the triaged table: '
+            ctx.bad(where, construct, 'a handler catches an ExcelError (or broader) and drops it; it is not in the triaged table: '
                                   'an error value reaching it would be lost instead of being propagated')
         elif tri[0] == 'conversion':
-            ctx.ok(h, construct, 'triaged: ' + tri[1])
+            ctx.ok(where, construct, 'triaged: ' + tri[1])
         else:
             # reachable with error values unless every caller tests isinstance(..., ExcelError) first
-            ctx.bad(h, construct, tri[1])
+            ctx.bad(where, construct, tri[1])
     # the item path of _validate: items must be tested for errors before _safe_validate
     xm = ctx.mod('xlfunctions.xl')
     v = xm.func('_validate')
